@@ -210,115 +210,53 @@ func (in *Interp) bigBytes(x *bigval) value {
 	return res
 }
 
-// bigSetString models (*big.Int).SetString(s, base) exactly for base 0 and
-// strings of concrete length: optional sign, 0x/0X, 0b/0B, 0o/0O or 0 prefix,
-// digits; underscores between digits are accepted in base 0 as math/big does.
+// bigSetString models (*big.Int).SetString(s, base): the control structure is
+// the transliteration of math/big (scanSign, nat.scan, setFromScanner) in
+// bigscan.go, which engine/bigscan_test.go compares with the real math/big on
+// every string over a 20-letter alphabet up to length 4; here the byte tests
+// become solver decisions and the accumulation a bit-vector term.
 func (in *Interp) bigSetString(z, sv, basev value) value {
 	C := in.p.C
-	base := in.concInt(basev, "SetString base", 1)
+	base := int(in.concInt(basev, "SetString base", 1))
 	bs := in.sbytes(sv)
-	fail := func() value { return tuple{(*value)(nil), false} }
 	if base != 0 && base != 10 && base != 16 && base != 2 && base != 8 {
 		panic(abortPath{"unsupported", fmt.Sprintf("SetString base %d", base)})
 	}
-	is := func(b ival, c byte) bool {
-		return in.p.decide(C.Eq(in.iterm(b), C.BVConst(uint64(c), 8)))
-	}
-	i := 0
-	neg := false
-	if len(bs) == 0 {
-		return fail()
-	}
-	if is(bs[0], '-') {
-		neg = true
-		i++
-	} else if is(bs[0], '+') {
-		i++
-	}
-	b := int(base)
-	prefix := false
-	if base == 0 {
-		b = 10
-		if i < len(bs) && is(bs[i], '0') {
-			if i+1 < len(bs) {
-				switch {
-				case is(bs[i+1], 'x') || is(bs[i+1], 'X'):
-					b, prefix = 16, true
-					i += 2
-				case is(bs[i+1], 'b') || is(bs[i+1], 'B'):
-					b, prefix = 2, true
-					i += 2
-				case is(bs[i+1], 'o') || is(bs[i+1], 'O'):
-					b, prefix = 8, true
-					i += 2
-				default:
-					b, prefix = 8, true
-					i++ // the leading 0 counts as a digit; "0_7" style separators allowed
-					// keep the 0 as a consumed digit
-				}
-			}
-		}
-	}
-	// digits
 	w := 8*len(bs) + 8
-	acc := C.BVConst(0, w)
-	digits := 0
-	if b == 8 && prefix && base == 0 && i >= 1 && i <= len(bs) {
-		// "0..." octal: the leading zero already is one digit
-		if i < len(bs)+1 && (i == 1 || (i == 2 && neg) || (i == 2 && !neg)) {
-			digits = 0
-		}
+	o := &symScan{in: in, bs: bs, w: w, acc: C.BVConst(0, w)}
+	ok, neg := scanBigModel(o, base)
+	if !ok {
+		return tuple{(*value)(nil), false}
 	}
-	lastUnderscore := false
-	sawLeadingZeroDigit := base == 0 && b == 8 && prefix && i > 0 && bs[i-1].t == nil && bs[i-1].c == '0'
-	_ = sawLeadingZeroDigit
-	// Whether the octal "0" prefix form (no letter) was used: then the 0 is itself a digit.
-	zeroPrefixDigit := false
-	if base == 0 && b == 8 && prefix {
-		// distinguish "0o" from plain "0": in the plain case i advanced by one only
-		// and bs[i-1] is the '0'
-		if i >= 1 {
-			prev := bs[i-1]
-			if in.p.decide(C.Eq(in.iterm(prev), C.BVConst('0', 8))) {
-				zeroPrefixDigit = true
-			}
-		}
-	}
-	if zeroPrefixDigit {
-		digits = 1
-	}
-	for ; i < len(bs); i++ {
-		c := in.iterm(bs[i])
-		if base == 0 && is(bs[i], '_') {
-			// separator: must be between digits (or directly after the prefix)
-			if lastUnderscore || (digits == 0 && !prefix) {
-				return fail()
-			}
-			lastUnderscore = true
-			continue
-		}
-		var d *smt.Term
-		switch {
-		case in.p.decide(C.And(C.Cmp(smt.OpBvUle, C.BVConst('0', 8), c), C.Cmp(smt.OpBvUle, c, C.BVConst('9', 8)))):
-			d = C.Bin(smt.OpBvSub, c, C.BVConst('0', 8))
-		case in.p.decide(C.And(C.Cmp(smt.OpBvUle, C.BVConst('a', 8), c), C.Cmp(smt.OpBvUle, c, C.BVConst('z', 8)))):
-			d = C.Bin(smt.OpBvSub, c, C.BVConst('a'-10, 8))
-		case in.p.decide(C.And(C.Cmp(smt.OpBvUle, C.BVConst('A', 8), c), C.Cmp(smt.OpBvUle, c, C.BVConst('Z', 8)))):
-			d = C.Bin(smt.OpBvSub, c, C.BVConst('A'-10, 8))
-		default:
-			return fail()
-		}
-		if in.p.decide(C.Cmp(smt.OpBvUle, C.BVConst(uint64(b), 8), d)) {
-			return fail()
-		}
-		lastUnderscore = false
-		digits++
-		acc = C.Bin(smt.OpBvAdd, C.Bin(smt.OpBvMul, acc, C.BVConst(uint64(b), w)), C.Resize(d, w, false))
-	}
-	if digits == 0 || lastUnderscore {
-		return fail()
-	}
-	isZero := C.Eq(acc, C.BVConst(0, w))
-	in.bigSet(z, &bigval{neg: C.And(C.Bool(neg), C.Not(isZero)), mag: acc})
+	isZero := C.Eq(o.acc, C.BVConst(0, w))
+	in.bigSet(z, &bigval{neg: C.And(C.Bool(neg), C.Not(isZero)), mag: o.acc})
 	return tuple{z, true}
+}
+
+type symScan struct {
+	in  *Interp
+	bs  []ival
+	w   int
+	acc *smt.Term
+}
+
+func (o *symScan) n() int { return len(o.bs) }
+func (o *symScan) is(i int, c byte) bool {
+	C := o.in.p.C
+	return o.in.p.decide(C.Eq(o.in.iterm(o.bs[i]), C.BVConst(uint64(c), 8)))
+}
+func (o *symScan) between(i int, lo, hi byte) bool {
+	C := o.in.p.C
+	c := o.in.iterm(o.bs[i])
+	return o.in.p.decide(C.And(C.Cmp(smt.OpBvUle, C.BVConst(uint64(lo), 8), c), C.Cmp(smt.OpBvUle, c, C.BVConst(uint64(hi), 8))))
+}
+func (o *symScan) digitBelow(i int, off byte, base int) bool {
+	C := o.in.p.C
+	d := C.Bin(smt.OpBvSub, o.in.iterm(o.bs[i]), C.BVConst(uint64(off), 8))
+	return o.in.p.decide(C.Cmp(smt.OpBvUlt, d, C.BVConst(uint64(base), 8)))
+}
+func (o *symScan) push(i int, off byte, base int) {
+	C := o.in.p.C
+	d := C.Bin(smt.OpBvSub, o.in.iterm(o.bs[i]), C.BVConst(uint64(off), 8))
+	o.acc = C.Bin(smt.OpBvAdd, C.Bin(smt.OpBvMul, o.acc, C.BVConst(uint64(base), o.w)), C.Resize(d, o.w, false))
 }
